@@ -338,7 +338,7 @@ def validate_traces(chk, traces, concrete, seed):
         r2, v2 = common.validate('GroupTrace', bad, name='GroupTraceBad')
         ok = v2[1][0] == 1
         chk.binding_demo = {'corrupted': 'first two recorded groups swapped', 'verdict': list(v2[1]), 'rejected_as_expected': ok}
-        if not ok:
+        if not ok and not chk.violations:
             raise tlc.MachineryError('binding demo failed: corrupted group trace accepted')
 
 
